@@ -56,7 +56,7 @@ fn main() {
     let n = ctx.pick(6_500, 150_000);
     ctx.prop("agent-commands-commander", n, move || sent::arb_case(max_ops, true), sent::check);
     // boundary regime: big cases (65 540 commander registrations each), a small number per run
-    let n = ctx.pick(480, 20_000);
+    let n = ctx.pick(320, 20_000);
     ctx.prop("agent-commands-boundary", n, boundary::arb_case, boundary::check);
     ctx.finish();
 }
